@@ -17,7 +17,7 @@ RULE = ("grammar-directed files per format (BED3/6/12, bedGraph, narrowPeak, chr
         "LF/CRLF x {final line terminated, unterminated, ended by a bare LF}, FORMAT sub-fields dropped per sample, floats "
         "without leading zero mixed with '.' missing, typed INFO key FAMILIES (names that are a proper prefix / suffix / case variant of one another or the value of a String key, part of the family undeclared), header/comment lines; two-file HISTORY cases in one process (same INFO "
         "IDs with other Type/Number, same header with another buffer flavour, same column names with other declared types; both "
-        "orders); delimited tables with a column-name header line; GTF / GFF3 attribute lookups (gene_id, transcript_id, exon_number, "
+        "orders); MULTI-STEP READING ROUTES on one reader (chunks with columns looked at on only some of them, joined by np.concatenate; read_chunk then read()); delimited tables with a column-name header line; GTF / GFF3 attribute lookups (gene_id, transcript_id, exon_number, "
         "... per feature type; keys that are the tail of a longer key, quoted values containing ';' / '=' / spaces, rows without the "
         "key); buffer-level row selection (masks, index lists, slices, empty selections) and np.concatenate of buffers before "
         "get_data; integers of up to 19 digits; text fields as arbitrary bytes: multi-byte UTF-8 characters (2-4 bytes), the format's comment "
@@ -916,6 +916,7 @@ def cases(tier, rng):
     yield from pair_cases(tier, rng)
     yield from attr_cases(tier, rng)
     yield from buffer_op_cases(tier, rng)
+    yield from route_cases(tier, rng)
     for _ in range(60 * mult):
         yield _case("vcf", g_vcf_optional_focus(rng), rng.random() < 0.15, flavour="VCFBuffer")
     for _ in range(40 * mult):      # INFO keys whose names are prefixes / suffixes / case variants / values of one another
@@ -1037,6 +1038,87 @@ def _impl_attrs(c):
         return _err(e)
 
 
+def _join_canon(a, b):
+    if isinstance(a, dict):
+        return {k: _join_canon(a[k], b[k]) for k in a}
+    return list(a) + list(b)
+
+
+def _impl_route(c, route, p, BT):
+    """the same file reached by a MULTI-STEP reading route on one reader (the result must be the whole file's table):
+    "chunks_concat": read in chunks (lazily unless route["lazy"] is False), some columns looked at on SOME of the chunks
+    (so that a column is parsed and cached in part of the operands only), the chunks joined with np.concatenate, then
+    every column read from the joined table; "head_rest": one read_chunk(...) then read() for the remainder, the two
+    tables' columns put side by side"""
+    import dataclasses
+    import numpy as np
+    import bionumpy as bnp
+    kw = {} if route.get("lazy", True) else {"lazy": False}
+    r = bnp.open(p, buffer_type=BT, **kw)
+    try:
+        if route["kind"] == "chunks_concat":
+            chunks = list(r.read_chunks(min_chunk_size=route["size"]))
+            for i, j in route["touch"]:
+                ch = chunks[i % len(chunks)]
+                names = [f.name for f in dataclasses.fields(ch)]
+                getattr(ch, names[j % len(names)])
+            d = np.concatenate(chunks) if len(chunks) > 1 else chunks[0]
+            return {"n": int(len(d)), "cols": [_canon_col(getattr(d, f.name)) for f in dataclasses.fields(d)]}
+        head = r.read_chunk(min_chunk_size=route["size"])
+        out = {"n": int(len(head)), "cols": [_canon_col(getattr(head, f.name)) for f in dataclasses.fields(head)]}
+        if out["n"] < route["n_records"]:                    # something is left for read()
+            rest = r.read()
+            out = {"n": out["n"] + int(len(rest)),
+                   "cols": [_join_canon(x, _canon_col(getattr(rest, f.name))) for x, f in zip(out["cols"], dataclasses.fields(rest))]}
+        return out
+    finally:
+        r.close()
+
+
+def route_cases(tier, rng):
+    """well-formed files of every chunk-readable format, read by a multi-step route (see _impl_route)"""
+    per = {"quick": 8, "thorough": 150, "widen": 30}[tier]
+    fmts = [f for f, F in FORMATS.items() if not F.get("colheader")]
+    for fmt in fmts:
+        F = FORMATS[fmt]
+        for _ in range(per):
+            crlf = rng.random() < 0.15
+            flavour = None
+            if fmt == "vcf":
+                flavour = rng.choice(["VCFBuffer", "VCFBuffer", "VCFBuffer2", "VCFWithInfoAsStringBuffer"])
+                lines = g_vcf(rng, True, flavour)
+            elif fmt == "sam":
+                lines = g_sam(rng, True)
+            elif fmt in ("fasta", "fasta2"):
+                lines = g_fasta(rng, True, fmt == "fasta2")
+            elif fmt == "fastq":
+                lines = g_fastq(rng, True)
+            elif fmt == "gfa":
+                lines = ["S\t" + g_ident(rng) + "\t" + g_seq(rng, "ACGT") for _ in range(g_rows(rng, True))]
+            else:
+                lines = g_delimited(rng, fmt, True)
+            c = _case(fmt, lines, crlf, flavour=flavour)
+            exp = oracle(c)
+            if not isinstance(exp, dict) or "n" not in exp or exp["n"] < 2:
+                continue
+            eol = 2 if crlf else 1
+            if fmt == "fasta":
+                starts = [m.start() for m in re.finditer(r"(?m)^>", c["text"])] + [len(c["text"])]
+                maxrec = max(b - a for a, b in zip(starts, starts[1:]))
+            else:
+                maxrec = {"fastq": 4, "fasta2": 2}.get(fmt, 1) * max(len(l) + eol for l in lines)
+            body = sum(len(l) + eol for l in lines if not l.startswith(("#", "@HD", "@SQ", "@PG")) or fmt in ("fastq",))
+            size = max(2 * maxrec + 2, body // rng.choice([2, 3, 4, 6]))
+            if rng.random() < 0.65:
+                touch = [[rng.randrange(8), rng.randrange(12)] for _ in range(rng.choice([1, 1, 2, 3]))]
+                if rng.random() < 0.5:
+                    touch[0][0] = 0                       # the first operand is the one NumPy dispatches on
+                c["route"] = {"kind": "chunks_concat", "size": size, "touch": touch, "lazy": rng.random() < 0.85}
+            else:
+                c["route"] = {"kind": "head_rest", "size": size, "lazy": rng.random() < 0.6, "n_records": exp["n"]}
+            yield c
+
+
 def impl(c):
     if c["op"] == "parse2":
         return {"first": impl(c["first"]), "second": impl(c["second"])}
@@ -1065,6 +1147,9 @@ def impl(c):
             p = os.path.join(_tmpdir(), "f" + F["suffix"])
             with open(p, "wb") as fh:
                 fh.write(data)
+            route = c.get("route")
+            if route:
+                return _impl_route(c, route, p, BT)
             r = bnp.open(p, buffer_type=BT, lazy=False)
             try:
                 d = r.read()
@@ -1508,6 +1593,12 @@ def finding_key(c, got, exp):
     fmt = c["fmt"]
     if c["op"] == "attrs":
         return f"attributes:{fmt}:{c['which']}:{'raises' if isinstance(got, dict) and 'err' in got else 'wrong-value'}"
+    if c.get("route"):
+        F = FORMATS[fmt]
+        raises = isinstance(got, dict) and "err" in got
+        if raises and F.get("interior") and re.search(r"\n" + re.escape(F["comment"]), c["text"]):
+            return "chunked-read:interior-comments:chunk-of-comment-lines-only:raises"
+        return f"route:{c['route']['kind']}:{fmt}:{'raises' if raises else 'wrong-value'}"
     if "sel" in c or "concat" in c:
         return f"buffer-{'row-selection' if 'sel' in c else 'concatenate'}:{fmt}:{'raises' if isinstance(got, dict) and 'err' in got else 'wrong-value'}"
     t = c["text"]
